@@ -321,3 +321,30 @@ func VfGcStaleCp(cli client.Redis, runIdMap map[string]struct{}, stale time.Dura
 		}
 	}
 }
+
+// VfNextStart is what the next start does with the stored position (non-bidirectional):
+// syncer.updateCheckpoint's id ordering by the checkpoint hash, the real UpdateCheckpoint run to
+// completion, then what RedisOutput.StartPoint reads: GetCheckpoint under the LOCAL key.
+func VfNextStart(tg *vfdoubles.Target, local string, ids []string) string {
+	cli := VfConn(tg)
+	defer cli.Close()
+	ordered := ids
+	_, cpRunId, err := GetCheckpointHash(cli, ids)
+	if err != nil {
+		return "err"
+	}
+	if len(ids) > 1 && cpRunId == ids[1] && ids[1] != ids[0] {
+		ordered = []string{ids[1], ids[0]}
+	}
+	if err := UpdateCheckpoint(cli, local, ordered); err != nil {
+		return "err"
+	}
+	cpi, db, err := GetCheckpoint(cli, local, ids)
+	if err != nil {
+		return "err"
+	}
+	if db < 0 {
+		return "none"
+	}
+	return fmt.Sprintf("%d@%d", cpi.Offset, db)
+}
